@@ -52,7 +52,7 @@ def families(tier):
     add("a_dpull_b_c", D["a_dpull_b_c"], 3, 4)
     add("a0_a_p_b", D["a0_a_p_b"], 0, 4)
     add("two_pulls_parallel", D["two_pulls_parallel"], 0, 4)
-    add("tap_shared_dfix", topos.TAPS["tap_shared_dfix"], 0, 4)
+    add("tap_shared_dfix", topos.TAPS["tap_shared_dfix"], 4, 4)
     add("tap_shared_scale", topos.TAPS["tap_shared_scale"], 3, 4)
     add("abc", D["abc"], 0, 5)
     add("cba_listed", D["cba_listed"], 0, 5)
